@@ -143,6 +143,16 @@ impl Rhs<f64> for GenericProblem {
             out[i] = arg.sin() + c * y[j] * y[k] / (1.0 + nn) + d * (e * t).cos();
         }
     }
+    fn estimate_floor(&self, t: f64, _ynorm: f64) -> Option<f64> {
+        // without the b.y argument the state enters through the bounded quotient only: a relative
+        // perturbation eps of the state moves f by at most 4 |c| eps, a relative perturbation eps of a
+        // stage time by at most lip |t| eps, and the weighted sum of the stages adds eps |f|
+        if self.b.iter().all(|v| *v == 0.0) {
+            Some(64.0 * f64::EPSILON * (self.lip * (1.0 + t.abs()) + 7.0) * (self.n as f64).sqrt())
+        } else {
+            None
+        }
+    }
 }
 
 impl GenericProblem {
